@@ -32,5 +32,7 @@ pub mod prelude {
         StdResult, SubMsgResult, Uint128,
     };
     pub use sylvia::cw_utils::MsgInstantiateContractResponse;
+    #[allow(deprecated)]
+    pub use sylvia::types::ReplyCtx as LegacyReplyCtx;
     pub use sylvia::types::{CustomMsg, CustomQuery};
 }
